@@ -125,6 +125,28 @@ func c15GenFacts() (string, string) {
 	u := parse("utils/collectionutils.go")
 	emit("utils/collectionutils.go", u, "", "MapKeys")
 	emit("utils/collectionutils.go", u, "", "MapsAppend")
+	// round 6: the loader side of profile selection (Model/SelectLoad.lean).  Of `loader.modelToProject` and
+	// `loader.checkConsistency` only the statements the model is written against are pinned (the profile step, the two
+	// guarded steps after it and their order; the depends_on loop) — the rest of those bodies belongs to other properties.
+	emitSel := func(file string, f *ast.File, recv, name, as string, keep ...string) {
+		var sk []string
+		for _, l := range c15Func(f, recv, name) {
+			for _, k := range keep {
+				if strings.Contains(l, k) {
+					sk = append(sk, l)
+					break
+				}
+			}
+		}
+		total += len(sk)
+		fmt.Fprintf(&b, "/-- %s `%s`: the statements that mention %s, in source order -/\ndef c15_%s : List String := [\n  %s]\n\n",
+			file, name, strings.Join(keep, " / "), as, strings.Join(quoteAll(sk), ",\n  "))
+	}
+	emitSel("loader/loader.go", parse("loader/loader.go"), "", "modelToProject", "modelToProject_tail",
+		"WithProfiles", "SkipConsistencyCheck", "checkConsistency", "SkipResolveEnvironment", "WithServicesEnvironmentResolved", "Transform(")
+	emitSel("loader/validate.go", parse("loader/validate.go"), "", "checkConsistency", "checkConsistency_dependsOn",
+		"DependsOn", "dependedService", "ErrDisabled")
+	emit("cli/options.go", parse("cli/options.go"), "", "WithDefaultProfiles")
 	b.WriteString("end CV.Gen\n")
 	fmt.Fprintf(logw, "C15 facts: %d skeleton entries of the selection functions of types/project.go\n", total)
 	return "C15Facts.lean", b.String()
